@@ -369,9 +369,14 @@ class Unit:
             txt = '#[verifier::external_body]\n' + txt[:bo] + '{ unimplemented!() /* body verified in unit %s */ }' % assumed
         else:
             txt, has_contract = weave(txt, s, notes, canary)
+        emit_name = s.opt('rename') or fn
+        if s.opt('rename'):
+            # the real text is verified under another name (a shim of the original name carries the contract other functions use)
+            txt = re.sub(r'\bfn\s+' + re.escape(fn) + r'\b', 'fn ' + emit_name, txt, count=1)
+            notes.add('W', 'function emitted under the name %s' % emit_name)
         if canary:
             # a renamed COPY of the function with `ensures false` appended: it must fail to verify
-            txt = re.sub(r'\bfn\s+' + re.escape(fn) + r'\b', 'fn ' + fn + '__canary', txt, count=1)
+            txt = re.sub(r'\bfn\s+' + re.escape(emit_name) + r'\b', 'fn ' + emit_name + '__canary', txt, count=1)
         if lifted_lambdas and header is None and not canary:
             txt = '\n'.join(lifted_lambdas) + '\n' + txt
         elif lifted_lambdas and header is not None:
@@ -398,6 +403,8 @@ class Unit:
         it.rewritten = rewritten
         it.has_contract = has_contract
         it.verus_name = '%s::%s' % (self.crate_name, qual)
+        if s.opt('rename'):
+            it.verus_name = '%s::%s' % (self.crate_name, (ty + '::' if ty else '') + emit_name)
         it.is_canary = canary
         if canary:
             it.verus_name += '__canary'
